@@ -178,6 +178,17 @@ func TestCorpusC17(t *testing.T) {
 		c17Run(c17Case{"raw profile " + strconv.Quote(p), p, baseData}, sigs)
 		n++
 	}
+	// a sequence where a mapping is expected (and the reverse), also with the looked-up key as an element
+	for _, body := range []string{
+		"validations:\n  v1: [targetClass]\n", "validations:\n  v1: [message, x, targetClass]\n", "validations:\n  v1: [targetClass, apiContract.WebAPI, propertyConstraints]\n",
+		"validations:\n  v1:\n    targetClass: apiContract.WebAPI\n    propertyConstraints: [core.name]\n", "validations:\n  v1:\n    targetClass: apiContract.WebAPI\n    if: [propertyConstraints]\n    then: [propertyConstraints, x, not]\n",
+		"validations:\n  v1:\n    targetClass: apiContract.WebAPI\n    and: {propertyConstraints: {core.name: {minCount: 1}}}\n", "validations:\n  v1:\n    targetClass: apiContract.WebAPI\n    not: [not]\n",
+		"validations:\n  v1:\n    targetClass: apiContract.WebAPI\n    propertyConstraints:\n      core.name:\n        in: {a: b}\n        atLeast: [count, validation]\n", "validations: [v1, validations, v1]\n", "prefixes: [core]\nvalidations:\n  v1:\n    targetClass: apiContract.WebAPI\n",
+	} {
+		p := "#%Validation Profile 1.0\nprofile: P\nviolation:\n  - v1\n" + body
+		c17Run(c17Case{"shape confusion " + strconv.Quote(body), p, baseData}, sigs)
+		n++
+	}
 	// custom rego that interferes with the report rule's own names
 	for _, ext := range []string{`violation[x] { x := "boom" }`, `warning[x] { x := 5 }`, `info[x] { x := [1] }`, `violation[x] { x := {"a": 1} }`, `violation[x] { x := {"@type": 5, "trace": 7} }`,
 		`violation[x] { x := null }`, `report["profile"] = 5`, `report["extra"] = {"a": [1, 2]}`, `report["violation"] = 5`, `default violation = 3`, `warning = 5`, `trace(a, b, c, d) = 5 { true }`, `find = 3`} {
